@@ -336,8 +336,11 @@ class EngineVsStatement(Bounded):
             return dict(bpms=[(str(b), str(v)) for b, v in tl.bpms], stops=[(str(b), str(v)) for b, v in tl.stops],
                         delays=[(str(b), str(v)) for b, v in tl.delays], warps=[(str(b), str(v)) for b, v in tl.warps], offset=str(tl.offset))
 
-        for idx, tl in enumerate(TL.configurations(tier)):
-            if idx % self.PARTS != self.part:
+        import itertools as _it
+        generic = list(TL.generic_configurations(tier)) if self.part == 0 else []
+        for idx, tl in enumerate(_it.chain(generic, TL.configurations(tier))):
+            is_generic = idx < len(generic)
+            if not is_generic and (idx - len(generic)) % self.PARTS != self.part:
                 continue
             eng = TL.real_engine(tl)
             bad = None
@@ -381,6 +384,8 @@ class EngineVsStatement(Bounded):
                 e3 = TL.real_engine(tl3)
                 prev = None
                 times = []
+                if is_generic:
+                    ps = [F(n_, 48) for n_ in range(0, 48 * 10 + 1)]
                 for b in ps:
                     for tag in TL.TAGS:
                         times.append(tl.time_at(b, tag))
@@ -396,6 +401,8 @@ class EngineVsStatement(Bounded):
                         if eng.beat_at(float(mid)) != b:
                             bad = f"inside the pause on beat {b}: beat_at({float(mid)}) = {eng.beat_at(float(mid))}"
                 for t in sorted(set(times)):
+                    if is_generic:
+                        break       # exact boundary times are not representable as floats for non-dyadic values
                     cases += 1
                     r = eng.beat_at(float(t))
                     if prev is not None and r < prev:
@@ -422,3 +429,72 @@ def engine_witness(whats):
                     return r["failures"][0]
         return None
     return ws
+
+
+# ---------------------------------------------------------------------------
+# _coalesce_warps: loop invariant "the segments so far are disjoint, non-touching and cover exactly the union of the warps seen"
+
+
+class CoalesceWarps(Unit):
+    name = "TimingEngine._coalesce_warps"
+    functions = (Q + "TimingEngine._coalesce_warps",)
+    expected = ["_coalesce_warps#loop0:inv-keep:cover", "post:union-of-warps"]
+    LQ = Q + "TimingEngine._coalesce_warps"
+
+    def run(self, ex):
+        from pyvc.execu import LoopSpec, field_slot
+        e = EN.E()
+        t = EN.T()
+        BV = TNT(t.BeatValue)
+        W = ex.sym(TSeq(BV), "warps")
+        n = z3.Length(W.t)
+        jq, kq, y = z3.Int("j!q"), z3.Int("k!q"), z3.Real("y!q")
+
+        def wb(j):
+            return BV.acc(W.t[j], "beat")
+
+        def wlen(j):
+            # Beat(warp.value): a decimal length snapped to the tick grid (C14)
+            return z3.ToReal(M.real_round_half_even(BV.acc(W.t[j], "value") * 48)) / 48
+
+        # domain (C11): strictly increasing non-negative beats, positive (snapped) lengths
+        ex.assume(z3.ForAll([jq], z3.Implies(z3.And(jq >= 0, jq < n), z3.And(wb(jq) >= 0, wlen(jq) > 0))))
+        ex.assume(z3.ForAll([jq], z3.Implies(z3.And(jq >= 0, jq + 1 < n), wb(jq) < wb(jq + 1))))
+        td = HObj(t.TimingData, {"warps": SM.new_userlist(t.BeatValues, W, "warps")}, "timing_data")
+        eng = HObj(e.TimingEngine, {"timing_data": td}, "self")
+
+        def beat_of(seq, k):
+            return BV.acc(seq[k], "beat")
+
+        def inv(ex_, fr, i, vals):
+            S_, E_ = vals["starts"].t, vals["ends"].t
+            m = z3.Length(S_)
+            in_warp = z3.Exists([jq], z3.And(jq >= 0, jq < i, wb(jq) <= y, y < wb(jq) + wlen(jq)))
+            in_seg = z3.Exists([kq], z3.And(kq >= 0, kq < m, beat_of(S_, kq) <= y, y < beat_of(E_, kq)))
+            return [("lengths", z3.And(z3.Length(E_) == m, (m == 0) == (i == 0))),
+                    ("segments-nonempty", z3.ForAll([kq], z3.Implies(z3.And(kq >= 0, kq < m), beat_of(S_, kq) < beat_of(E_, kq)))),
+                    ("segments-apart", z3.ForAll([kq], z3.Implies(z3.And(kq >= 0, kq + 1 < m), beat_of(E_, kq) < beat_of(S_, kq + 1)))),
+                    ("last-start-not-after-last-warp", z3.Implies(i > 0, z3.And(beat_of(S_, m - 1) <= wb(i - 1), wb(i - 1) < beat_of(E_, m - 1)))),
+                    ("cover", z3.ForAll([y], in_warp == in_seg))]
+
+        slots = [field_slot("starts", lambda ex_, fr: fr.locals["warp_starts"], "data", TSeq(BV)),
+                 field_slot("ends", lambda ex_, fr: fr.locals["warp_ends"], "data", TSeq(BV))]
+        ex.loop_specs[(self.LQ, 0)] = LoopSpec(slots, inv)
+        kind, r = ex.run_function(ex.closure_of(self.LQ, owner=e.TimingEngine), [eng])
+        if kind == "raise":
+            ex.prove("post:noraise", False, f"raised {r!r}")
+            return
+        (s_obj, s_tag), (e_obj, e_tag) = r
+        ok_tags = s_tag is e.EventTag.WARP and e_tag is e.EventTag.WARP_END
+        S_, E_ = s_obj.fields["data"], e_obj.fields["data"]
+        S_ = S_.t if is_sym(S_) else TSeq(BV).lift(S_)
+        E_ = E_.t if is_sym(E_) else TSeq(BV).lift(E_)
+        m = z3.Length(S_)
+        in_warp = z3.Exists([jq], z3.And(jq >= 0, jq < n, wb(jq) <= y, y < wb(jq) + wlen(jq)))
+        in_seg = z3.Exists([kq], z3.And(kq >= 0, kq < m, beat_of(S_, kq) <= y, y < beat_of(E_, kq)))
+        ex.prove("post:tags", z3.BoolVal(bool(ok_tags)))
+        ex.prove("post:union-of-warps", z3.And(z3.Length(E_) == m, z3.ForAll([y], in_warp == in_seg)),
+                 "overlapping or touching warps act as their union: the WARP/WARP_END pairs cover exactly the union of the warp segments")
+        ex.prove("post:alternating", z3.And(z3.ForAll([kq], z3.Implies(z3.And(kq >= 0, kq < m), beat_of(S_, kq) < beat_of(E_, kq))),
+                                            z3.ForAll([kq], z3.Implies(z3.And(kq >= 0, kq + 1 < m), beat_of(E_, kq) < beat_of(S_, kq + 1)))),
+                 "WARP and WARP_END events strictly alternate")
